@@ -427,7 +427,9 @@ func mapValComp(mt *types.Map) string {
 	return "MapVal." + compTypeKey(mt.Key()) + "." + compTypeKey(mt.Elem())
 }
 
-const mapLenComp = "MapLen"
+func mapLenComp(mt *types.Map) string {
+	return "MapLen." + compTypeKey(mt.Key()) + "." + compTypeKey(mt.Elem())
+}
 const chanClosedComp = "ChanClosed"
 
 func sortKey(s Sort) string {
